@@ -77,16 +77,16 @@ theorem extendLoop_spec (c : Cfg) (hR : 0 < c.R) (orc : Map → Nat → Orc) :
           abel
 
 /-- **`extend` refines the reference map** and conserves every object -/
-theorem extend_refines (c : Cfg) (hR : 0 < c.R) (m : Map) (items : List Entry) (orc : Map → Nat → Orc)
+theorem extend_refines (c : Cfg) (hR : 0 < c.R) (m : Map) (items : List Entry) (hint : Nat) (orc : Map → Nat → Orc)
     (h : Inv c.R m) :
-    OkOrCap (Map.extend c m items orc) (fun r =>
+    OkOrCap (Map.extend c m items hint orc) (fun r =>
       Inv c.R r.1 ∧ (∀ k, absOf r.1 k = specExtend (absOf m) items k) ∧
       (idsOf r.1.ents ++ r.2.cost.dropped).Perm (idsOf m.ents ++ items.flatMap Entry.ids) ∧ r.2.returned = []) := by
   unfold Map.extend Map.reserve
   dsimp only
-  have hs := reserve_spec c hR m (if m.len = 0 then items.length else (items.length + 1) / 2)
+  have hs := reserve_spec c hR m (if m.len = 0 then hint else hint / 2 + hint % 2)
     (orc m items.length).hits (orc m items.length).perm h
-  cases hr : Raw.reserve c m (if m.len = 0 then items.length else (items.length + 1) / 2)
+  cases hr : Raw.reserve c m (if m.len = 0 then hint else hint / 2 + hint % 2)
       (orc m items.length).hits (orc m items.length).perm with
   | error f => rw [hr] at hs; exact hs
   | ok r =>
@@ -129,8 +129,8 @@ theorem extendLoop_small (c : Cfg) (orc : Map → Nat → Orc) :
       exact ih m' _ r hs' h
 
 /-- **`extend` preserves the size invariant** (so `shrink_to`'s `2·len + 1` never wraps after it either) -/
-theorem extend_small (c : Cfg) (m : Map) (items : List Entry) (orc : Map → Nat → Orc) (r : Map × Out)
-    (hs : Small m) (h : Map.extend c m items orc = .ok r) : Small r.1 := by
+theorem extend_small (c : Cfg) (m : Map) (items : List Entry) (hint : Nat) (orc : Map → Nat → Orc) (r : Map × Out)
+    (hs : Small m) (h : Map.extend c m items hint orc = .ok r) : Small r.1 := by
   unfold Map.extend at h
   dsimp only at h
   split at h
@@ -147,8 +147,13 @@ theorem extend_small (c : Cfg) (m : Map) (items : List Entry) (orc : Map → Nat
     6, key 2 is stored with the key object of its FIRST pair and the value of its last; three objects are dropped -/
 example :
     let m : Map := { main := { buckets := 8, ents := [⟨1, 10, 5, 11⟩], gl := 5 }, lo := none }
-    (match Map.extend { R := 8 } m [⟨1, 20, 6, 21⟩, ⟨2, 22, 7, 23⟩, ⟨2, 24, 8, 25⟩] (fun _ _ => {}) with
+    (match Map.extend { R := 8 } m [⟨1, 20, 6, 21⟩, ⟨2, 22, 7, 23⟩, ⟨2, 24, 8, 25⟩] 3 (fun _ _ => {}) with
      | .ok (m', out) => (m'.ents.map (fun e => (e.k, e.kid, e.v, e.vid)), out.cost.dropped)
      | .error _ => ([], [])) = ([(2, 22, 8, 25), (1, 10, 6, 21)], [20, 11, 24, 23]) := by decide
+
+/-- the rounding `extend` uses is the one its comment promises — half the hint, rounded up — and stays below the
+    hint, so it is representable whenever the hint is (no overflow for any `usize` hint) -/
+theorem extend_hint_rounding (hint : Nat) : hint / 2 + hint % 2 = (hint + 1) / 2 ∧ hint / 2 + hint % 2 ≤ hint := by
+  omega
 
 end Griddle.C01
